@@ -6,6 +6,7 @@ escaped, printers showing what the tree shows - have their truth in the shape of
 decide exactly these.
 """
 import ast
+import itertools
 import re
 
 from ..source import AnalysisError, norm, dotted, const_str, walk_no_nested
@@ -74,6 +75,32 @@ def check_parens(ctx, model):
     ok = len(rets) == 1 and txt.startswith('self.maybe_add_alias(self.maybe_add_parentheses(self.get_string(')
     ctx.ob('C01.paren-kept', 'ASTNode.to_string', ok,
            f'ASTNode.to_string is `{txt}`: it must compose maybe_add_alias(maybe_add_parentheses(get_string()))', file=BASE, line=ts.lineno)
+    # the two wrappers of the base printer, interpreted on probe texts: parentheses <=> exactly one pair around the text
+    from ..interp import Interp, Obj, Raised, Env
+    mp = base.methods.get('maybe_add_parentheses')
+    ma = base.methods.get('maybe_add_alias')
+    ctx.need(mp is not None and ma is not None, 'ASTNode.maybe_add_parentheses / maybe_add_alias not found')
+    for flag in (True, False):
+        for text in ('a', 'a + b', '(a = 1) OR (b = 2)', '(a)', '(a, b)', '', '(SELECT 1)', '(a) - (b)'):
+            try:
+                got = Interp().call_function(mp, [Obj('ASTNode', parentheses=flag, alias=None), text], {}, Env())
+            except Raised as r:
+                got = f'<{r.exc_name}>'
+            want = f'({text})' if flag else text
+            ctx.ob('C01.paren-kept', f'maybe_add_parentheses:{flag}:{text}', got == want,
+                   f'maybe_add_parentheses with parentheses={flag} turns `{text}` into `{got}`, expected `{want}`: parentheses written by the user are '
+                   f'printed iff the flag is set, whatever the text looks like (a text that starts with `(` and ends with `)` need not be one group)',
+                   file=BASE, line=mp.lineno, witness='select ((a = 1) or (b = 2)) and c = 3')
+    for with_alias, want_alias in itertools.product((True, False), (True, False)):
+        al = Obj('Identifier', parts=['x'])
+        stubs = {'self.alias.to_string': lambda it, alias=True: 'x' if alias is False else 'x AS ?'}
+        try:
+            got = Interp(stubs=stubs).call_function(ma, [Obj('ASTNode', parentheses=False, alias=al if with_alias else None), 'a + b'], {'alias': want_alias}, Env())
+        except Raised as r:
+            got = f'<{r.exc_name}>'
+        want = 'a + b AS x' if (with_alias and want_alias) else 'a + b'
+        ctx.ob('C01.paren-kept', f'maybe_add_alias:{with_alias}:{want_alias}', got == want,
+               f'maybe_add_alias(alias={want_alias}) on a node {"with" if with_alias else "without"} alias gives `{got}`, expected `{want}`', file=BASE, line=ma.lineno)
     for ci in model.subclasses('ASTNode', strict=True):
         if 'to_string' in ci.methods and ci.file.startswith('mindsdb_sql/parser/'):
             if ci.name in TO_STRING_EXEMPT:
